@@ -403,7 +403,12 @@ def run_one(seed, preset=None, tier="quick", want_case=False):
                 roots = (s["queryType"] and s["queryType"]["name"], s["mutationType"] and s["mutationType"]["name"],
                          s["subscriptionType"] and s["subscriptionType"]["name"])
                 if roots != (schema.query, schema.mutation, schema.subscription):
-                    viol.append(V("root_types", "[%s] root operation types %r, declared %r" % (mode, roots, (schema.query, schema.mutation, schema.subscription))))
+                    declared = (schema.query, schema.mutation, schema.subscription)
+                    only_stray = schema.explicit_schema_def and all(
+                        r == d or (d is None and r == dn and dn in schema.types)
+                        for r, d, dn in zip(roots, declared, ("Query", "Mutation", "Subscription")))
+                    viol.append(V("root_types", "[%s] root operation types %r, declared %r" % (mode, roots, declared),
+                                  cause="undeclared_type_with_default_root_name" if only_stray else "other"))
                 got = {}
                 for t in s["types"]:
                     if t["name"] in got:
